@@ -194,6 +194,12 @@ def obs_C02(g, out):
         pair(out, "Displacement_g_12", "ylow", g.var("g_12_ylow"), d12l, q12l, 0, kind="signratio12y", dom="legsAwayXnotfirst")
         pol22l = g.var("g_22_ylow") - (g.var("Rxy_ylow") * g.var("dphidy_ylow")) ** 2
         out["g12scale_ylow"] = Q(np.sqrt(np.abs(g.var("g_11_ylow") * pol22l)), q12l)
+    # the poloidal part of g_22 against the arcs of the independent contour follower (centre: face to face; ylow: centre to centre)
+    arcs = cell_arcs(g)
+    out["arc"] = {k: Q(arcs[k], QLEN) for k in ("Alo_c", "Ahi_c")}
+    pol22y = g.var("g_22_ylow") - (g.var("Rxy_ylow") * g.var("dphidy_ylow")) ** 2
+    out["g22pol"] = {"centre": Q(np.sqrt(np.abs(pol22)) * dy, QLEN), "ylow": Q(np.sqrt(np.abs(pol22y)) * dy, QLEN)}
+    out["nfine"] = int(g.extra["meshuser"].get("finecontour_Nfine", 0))
 
 
 P.OBS["C02"] = obs_C02
@@ -822,6 +828,25 @@ def obs_C07(g, out):
         for c, f in zip("xyz", (fx, fy, fz)):
             bx = g.loc("bxcv" + c, loc)
             pair(out, "BxcvIsHalfBCurl", loc, bx, B / 2.0 * f, relq(bx, rel=1e-9), 10, dom="all")
+        if g.extra["meshuser"].get("curvature_type", "curl(b/B)") == "curl(b/B)":
+            # this form is evaluated pointwise from the equilibrium's field functions: to rounding it must be the specification's curl(b/B)
+            # (FieldOps!CurlDef, here through the evaluator TLC compares with it) of the equilibrium's own psi derivatives, fpol and fpol',
+            # projected on grad(x) = grad(psi), grad(y) = (BR + BZ tan(beta), BZ - BR tan(beta)) / (Bp hy), grad(z) = zetahat / R - Bt hy / (Bp R) grad(y)
+            from harness import fields_eval
+
+            with np.errstate(all="ignore"):
+                pv = np.asarray(eq.psi(R, Z), dtype=float)
+                BRv, BZv = np.asarray(eq.Bp_R(R, Z), dtype=float), np.asarray(eq.Bp_Z(R, Z), dtype=float)
+                d = fields_eval.fields(R, pv, -R * BZv, R * BRv, np.asarray(eq.d2psidR2(R, Z), dtype=float), np.asarray(eq.d2psidRdZ(R, Z), dtype=float),
+                                       np.asarray(eq.d2psidZ2(R, Z), dtype=float), np.asarray(eq.fpol(pv), dtype=float) + 0.0 * R,
+                                       np.asarray(eq.fpolprime(pv), dtype=float) + 0.0 * R)
+                tb = np.zeros(R.shape) if orth else region_assemble(g, "tanBeta", loc)
+                pair(out, "CurlXIsDefinition", loc, fx, d["curl_x"], relq(fx, rel=1e-9), 20, dom="all")
+                if tb is not None:
+                    dy_ = (d["curl_R"] * (BRv + BZv * tb) + d["curl_Z"] * (BZv - BRv * tb)) / (Bp * hy)
+                    dz_ = d["curl_zeta"] / R - Bt * hy / (Bp * R) * dy_
+                    pair(out, "CurlYIsDefinition", loc, fy, dy_, relq(fy, rel=1e-9), 20, dom="awayX")
+                    pair(out, "CurlZIsDefinition", loc, fz, dz_, relq(fz, rel=1e-9), 20, dom="awayX")
 
 
 P.OBS["C07"] = obs_C07
